@@ -65,9 +65,9 @@ Section PSpec.
         end
     end.
 
-  Definition prun (l : list (pev V)) : option (option V) := fold_left pnext l (Some None).
+  Definition plog_run (l : list (pev V)) : option (option V) := fold_left pnext l (Some None).
   Definition promise_log_ok (l : list (pev V)) : bool :=
-    match prun l with None => false | Some _ => true end.
+    match plog_run l with None => false | Some _ => true end.
 End PSpec.
 
 (** ---- monotone boolean observations (realized?) : oldest first, false* true* ---- *)
